@@ -50,6 +50,84 @@ def guard_machine(g, position, g2):
     return am
 
 
+def settle_machine(g, z, via_event, deep):
+    """a guard whose value CHANGES between two microsteps of one settle: `work` (compound) declares a guarded eventless
+    transition to `bail`; its child a has an unguarded eventless transition to b whose action assigns ctx[0] := z.  Microstep 1 is
+    won by the deeper transition (the guard on `work` was consulted on the way up); microstep 2 must consult the guard AGAIN, in
+    the new context.  (Third-round seeded change C06-C kept one guard memo for the whole settle loop of the sync engine.)"""
+    nodes = [Node(0, "m", None, "compound"), Node(1, "idle", 0, "atomic"), Node(2, "work", 0, "compound"), Node(3, "a", 2, "atomic"),
+             Node(4, "b", 2, "atomic"), Node(5, "bail", 0, "atomic")]
+    nodes[0].children = [1, 2, 5]; nodes[2].children = [3, 4]
+    nodes[0].initial = 1 if via_event else 2
+    nodes[2].initial = 3
+    am = AM(nodes, max_iter=6)
+    nodes[1].on.append(("GO", [Trans(1, 1, "GO", 2)]))
+    nodes[2].on.append(("", [Trans(2, 2, "", 5, guard=g, actions=[("mark", 2)])]))
+    acts = [("assign", 0, z), ("mark", 3)]
+    if deep:
+        # two hops below before the context changes: the guard is consulted three times
+        c = Node(6, "c", 2, "atomic"); nodes.append(c); nodes[2].children.append(6)
+        nodes[3].on.append(("", [Trans(3, 3, "", 6, actions=[("mark", 4)])]))
+        nodes[6].on.append(("", [Trans(4, 6, "", 4, actions=acts)]))
+    else:
+        nodes[3].on.append(("", [Trans(3, 3, "", 4, actions=acts)]))
+    for n in nodes[1:]:
+        n.entry = [("mark", 10 + n.idx)]
+    return am
+
+
+def geval_spec(g, cx):
+    """the property's reading of a guard: ordinary boolean meaning, a raising predicate counts as false"""
+    k = g[0]
+    if k == "ge":
+        return cx.get(g[1], 0) >= g[2]
+    if k == "raises":
+        return False
+    if k == "not":
+        return not geval_spec(g[1], cx)
+    if k == "and":
+        return all(geval_spec(x, cx) for x in g[1])
+    if k == "or":
+        return any(geval_spec(x, cx) for x in g[1])
+    raise ValueError(g)
+
+
+def settle_monitor(am, engine, cx, events, snaps):
+    out = c02.monitor(am, engine, cx, events, snaps)
+    spec = getattr(am, "settle_spec", None)
+    if spec is None or any("special" in s for s in snaps) or not snaps:
+        return out
+    g, z = spec
+    final = snaps[-1]
+    if any(o[0] == "err" for o in final.get("log", [])) or final["status"] != 1:
+        return out
+    after = dict(cx)
+    after[0] = z
+    want = [0, 5] if geval_spec(g, after) else [0, 2, 4]
+    if sorted(final["cfg"]) != want:
+        out = [("the guarded eventless transition work -> bail was %s although its guard is %s in the context %s it is selected in "
+                "(the guard was last true/false in an EARLIER microstep of the same settle): configuration %s, expected %s"
+                % ("taken" if 5 in final["cfg"] else "not taken", geval_spec(g, after), after, sorted(final["cfg"]), want), None)] + out
+    return out[:1]
+
+
+def settle_family():
+    cases = []
+    gs = [("not", ("ge", 0, 1)), ("ge", 0, 1), ("and", [("ge", 1, 1), ("not", ("ge", 0, 1))]), ("or", [("ge", 0, 2), ("raises", 1)])]
+    i = 0
+    for g in gs:
+        for z in (1, 2, 0):
+            for via_event in (True, False):
+                for deep in (False, True):
+                    am = settle_machine(g, z, via_event, deep)
+                    am.settle_spec = (g, z)
+                    runs = [({0: a, 1: b}, [("GO", "plain", 1), ("GO", "plain", 2)]) for a, b in ((0, 1), (2, 1), (0, 0))]
+                    for engine in ("sync", "async"):
+                        cases.append((am, engine, runs, dict(probe_can=True, gspell=i % 2, cond=(i // 2) % 2 == 1)))
+                        i += 1
+    return cases
+
+
 def families(tier, rng):
     big = tier == "thorough"
     fs = formulas(1, rng, cap=None)
@@ -66,7 +144,10 @@ def families(tier, rng):
             runs = [({0: a, 1: b}, [("E", "plain", 1), ("E", "plain", 2)]) for a, b in itertools.product((0, 2), (0, 1))]
             opts = dict(probe_can=True, gspell=(i + pos) % 2, cond=((i // 2 + pos) % 2 == 1))
             cases.append((am, ("sync", "async")[(i + pos) % 2], runs, opts))
-    return [("formulas", cases, "guard formulas of nesting depth <=%d over %d atoms (named/parameterised incl. falsy params, raising, "
+    return [("settle", settle_family(), "a guarded eventless transition on a compound state whose guard changes value between two "
+             "microsteps of ONE settle (the deeper eventless transition that wins first assigns the variable the guard reads): 4 guards x "
+             "3 assigned values x entered by event / at start() x 1-2 hops x 3 contexts, both engines"),
+            ("formulas", cases, "guard formulas of nesting depth <=%d over %d atoms (named/parameterised incl. falsy params, raising, "
              "stateIn in four spellings, missing) at three positions (first/second of a candidate list, on the ancestor) x 4 context "
              "valuations, both operand spellings, guard/cond key alternating (%d formulas)" % (2, len(ATOMS), len(fs)))]
 
@@ -75,7 +156,7 @@ def run(rep, ctx):
     rng = random.Random(ctx["seed"] * 7919 + 6)
     dis_all, fail_all = [], []
     for name, cases, rule in families(ctx["tier"], rng):
-        dis, fails, stats = common.run_macro_property(rep, ctx, "c06_" + name, cases, c02.monitor, rule)
+        dis, fails, stats = common.run_macro_property(rep, ctx, "c06_" + name, cases, settle_monitor if name == "settle" else c02.monitor, rule)
         dis_all += dis
         fail_all += fails
     rep.coverage["exhaustive"] = True
@@ -90,4 +171,4 @@ def run(rep, ctx):
 
 
 def replay(payload):
-    return common.replay_macro(payload, c02.monitor)
+    return common.replay_macro(payload, settle_monitor)
